@@ -154,7 +154,7 @@ def run(tier, seed, only=None):
     # ------------------------------------------------------------ corpus, S-b
     rng = Rng.for_case(seed, "c07-sb", 0)
     if quick:
-        subset = rng.sample(usable, max(1, len(usable) // 8))
+        subset = rng.sample(usable, max(1, len(usable) // 3))
         nseeds = 2
     else:
         subset = usable
@@ -195,7 +195,7 @@ def run(tier, seed, only=None):
 
     # ------------------------------------------------------------ generated graphs, S-a
     scratch = make_scratch("c07")
-    nprog = int(os.environ.get("BVSIM_C07_NPROG", 120 if quick else 4000))
+    nprog = int(os.environ.get("BVSIM_C07_NPROG", 600 if quick else 6000))
     max_orders = int(os.environ.get("BVSIM_C07_ORDERS", 6 if quick else 48))
     log(f"[C07] generated declaration graphs: {nprog} programs x <= {max_orders} orders")
     progs = []
@@ -209,7 +209,8 @@ def run(tier, seed, only=None):
         progs.append((prog, ords))
         for k, o in enumerate(ords):
             text = gen_decls.render(prog, o)
-            job = write_header_job(scratch, f"g{i}.o{k}", gen_decls.header_name(prog), text, prog.flags)
+            job = write_header_job(scratch, f"g{i}.o{k}", gen_decls.header_name(prog), text, prog.flags,
+                                   {"callbacks": True} if prog.callbacks else None)
             # every order also runs under its own S-b stream
             s = Rng.for_case(seed, f"c07-graph-{i}", k).next()
             cfg = fix_cfg(s, perturb=(k % 2 == 1))
